@@ -272,7 +272,7 @@ CHECKS['C14'] = dict(
           'sorts or walks the declared list (C14_perm_invariant), with a counterexample for iteration over the set itself '
           '(finding F14, repaired in /repo); the iteration mode of change_meta_unique_together / '
           'change_meta_index_together is extracted from the source on every run and C14_source_iteration_deterministic '
-          'is re-checked against it, likewise the walk over DeleteModel\'s join tables (C14_source_delete_model_ordered); preview and execution load the same evolution files on every database when both call sites hand on the alias (C14_preview_loads_what_execution_loads, C14_source_loads_pass_database). C14_equal_if_defs_unchanged / C14_cex_preview_differs: a second optimiser pass over '
+          'is re-checked against it, likewise the walk over DeleteModel\'s join tables (C14_source_delete_model_ordered); consecutive graph nodes of one type are folded into one executed batch that lists every task\'s evolutions in node order (C14_merged_batch_keeps_node_order, Run/Merge.lean; merge_dicts\' list rule and the folding call are read from the source: C14_source_merge_dest_first, C14_source_batch_merge_call; correspondence batch_merge on generated batch infos); preview and execution load the same evolution files on every database when both call sites hand on the alias (C14_preview_loads_what_execution_loads, C14_source_loads_pass_database). C14_equal_if_defs_unchanged / C14_cex_preview_differs: a second optimiser pass over '
           'definitions the first pass left alone gives the same list, and not otherwise. On the real code every case '
           '(generated upgrades with rows plus the family "unique_together/index_together from one set of 0-4 pairs to '
           'another") runs in 4 (quick) / 16 (thorough) fresh processes with different PYTHONHASHSEED; each runs '
